@@ -232,7 +232,9 @@ func UCoordsSized(seed int64, ngeneric int, small int64) [][]byte {
 	gb := refmul.BaseMul(g)
 	for i := 1; i < 8; i++ {
 		add(ref.Base.Add(tor[i]).ToMontgomeryU())
-		add(gb.Add(tor[i]).ToMontgomeryU())
+		if small >= 40 || i == 1 || i == 4 {
+			add(gb.Add(tor[i]).ToMontgomeryU())
+		}
 	}
 	add(gb.ToMontgomeryU())
 	for i := 0; i < ngeneric; i++ {
